@@ -935,7 +935,7 @@ class BitField(object):
             start_at = self.length
 
             # Try every position until a space is found
-            for bit in range(0, self.length - length):
+            for bit in range(0, self.length - length + 1):
                 field_bits = ((1 << length) - 1) << bit
                 if not (assigned_bits & field_bits):
                     start_at = bit
